@@ -211,6 +211,50 @@ def peephole_tie(ctx):
     return 2 * len(asms) + npat
 
 
+def glue_corpus(ctx):
+    """legacy pipeline, optimize none vs gas vs codesize, same seeded ABI-derived call plan (boundary-biased arguments):
+    status, returndata, logs, final storage must agree.  Catches optimiser mutants outside the modelled fragment."""
+    from vlib.c02_corpus import CORPUS, HELPER
+    from vlib.c02_runner import first_difference, make_plan, observe_contract
+    from vlib.c15_corpus import OWN
+    from vlib.configs import Config
+    rnd = ctx.rng("glue")
+    shared = list(CORPUS)
+    if ctx.tier != "thorough":
+        shared = rnd.sample(shared, 14)
+    ncalls = 30 if ctx.tier != "thorough" else 80
+    n, calls, found = 0, 0, 0
+    for c in OWN + shared:
+        evm = "cancun"
+        try:
+            plan, abi = make_plan(c["src"], HELPER, ctx.rng("glue:" + c["name"]), ncalls)
+            if plan is None:
+                continue
+            ref = observe_contract(c["src"], Config(False, "none", evm), plan, HELPER, abi)
+        except Exception as e:  # noqa: contract does not compile unoptimised -> not this property's concern
+            ctx.log(f"glue: {c['name']} skipped: {type(e).__name__}")
+            continue
+        n += 1
+        for lvl in ("gas", "codesize"):
+            try:
+                o = observe_contract(c["src"], Config(False, lvl, evm), plan, HELPER, abi)
+                d = first_difference(ref, o)
+            except Exception as e:  # noqa
+                d = {"what": "compile-exception", "error": f"{type(e).__name__}: {str(e)[:300]}"}
+            calls += len(plan)
+            if d is not None and found < 3:
+                found += 1
+                if "call" in d:
+                    d["call_detail"] = {k: (v.hex() if isinstance(v, bytes) else v) for k, v in plan[d["call"]].items()}
+                d.update({"contract": c["name"], "source": c["src"], "config_a": "legacy-none-" + evm,
+                          "config_b": f"legacy-{lvl}-{evm}"})
+                ctx.violation("failing-input", f"contract behaves differently at optimize={lvl} vs none (legacy)", d,
+                              key=f"glue:{c['name']}:{lvl}:{d.get('what')}")
+    ctx.corr["glue_contracts"] = n
+    ctx.corr["glue_calls"] = calls
+    return found, calls
+
+
 def run(ctx):
     differ = Differ("cancun")
     found = 0
@@ -229,8 +273,10 @@ def run(ctx):
         (b["ok"] or not any(x in b.get("file", "") for x in ("GenUtils", "Optimizer.v")))
     # ---- observation (always): EVM differential
     found += evm_grid(ctx, differ)
+    gf, gcalls = glue_corpus(ctx)
+    found += gf
     # ---- tie
-    n = 0
+    n = gcalls
     if model_ok:
         n, f = binop_grid_tie(ctx, differ)
         found += int(f)
